@@ -202,6 +202,40 @@ pub fn run_c19(tier: &str, seed: u64, out: &mut dyn Write) {
         let _ = std::fs::remove_file(&raddr);
         for s in 0..senders { let _ = std::fs::remove_file(format!("/tmp/ccp/{}-s{}-{}", tag, senders, s)); }
     }
+    // a non-blocking sender bursting at a receiver that is not draining: what send accepted (Ok)
+    // is what arrives, once, in order; what it refused (the queue is full) does not count as sent
+    {
+        let rname = format!("{}-br", tag); let sname = format!("{}-bs", tag);
+        let res = match (portus::ipc::unix::Socket::<Nonblocking>::new(&rname), portus::ipc::unix::Socket::<Nonblocking>::new(&sname)) {
+            (Ok(recv), Ok(sk)) => {
+                let ra = std::path::PathBuf::from(format!("/tmp/ccp/{}", rname));
+                let rounds = if thorough { 200 } else { 30 };
+                let mut verdict = "intact-once-in-order".to_string();
+                let mut seq = 0u32; let mut refused = 0usize; let mut accepted_total = 0usize;
+                'outer: for _ in 0..rounds {
+                    let mut accepted = vec![];
+                    for _ in 0..64 {
+                        let len = r.range(13, 1024) as usize;
+                        match catch(|| sk.send(&payload(0, seq, len), &ra).is_ok()) {
+                            Some(true) => accepted.push(seq),
+                            Some(false) => refused += 1,
+                            None => { verdict = "PANIC".into(); break 'outer; }
+                        }
+                        seq += 1;
+                    }
+                    let mut got = vec![]; let mut buf = [0u8; 1024];
+                    while let Ok((n, _)) = recv.recv(&mut buf) { match check_payload(&buf[..n]) { Some((_, q)) => got.push(q), None => { verdict = "corrupted datagram".into(); break 'outer; } } }
+                    accepted_total += accepted.len();
+                    if got != accepted { verdict = format!("{} sends returned Ok but {} datagrams were delivered (lost, duplicated or reordered)", accepted.len(), got.len()); break; }
+                }
+                if verdict == "intact-once-in-order" && (refused == 0 || accepted_total == 0) { verdict = format!("burst did not fill the queue: accepted {} refused {}", accepted_total, refused); }
+                verdict
+            }
+            _ => "cannot-bind".to_string(),
+        };
+        writeln!(out, "transport\tunix-nonblocking-burst\t{}", res).unwrap();
+        let _ = std::fs::remove_file(format!("/tmp/ccp/{}", rname)); let _ = std::fs::remove_file(format!("/tmp/ccp/{}", sname));
+    }
     {
         let name = format!("{}-nb", tag);
         let res = match portus::ipc::unix::Socket::<Nonblocking>::new(&name) {
